@@ -178,6 +178,14 @@ def _lic(ctx, classes, rule, title, only_fns=None, floor=1):
     return r
 
 
+def _m8(ctx):
+    from .rules import sibling
+    r, npairs, ncases = sibling.rule_M8(ctx)
+    r.floor('factory pairs', npairs, 5)
+    r.floor('cases', ncases, 200)
+    return r
+
+
 def _c01(ctx):
     from .rules import mask
     m1, n1 = mask.rule_M1(ctx)
@@ -187,7 +195,7 @@ def _c01(ctx):
                  '(and the delegated solver never used when it was not built); line state only after Init()',
                  {'GenDirect', 'GenDirectLine', 'Line', 'DirectLine', 'ArcDirectLine', 'LineInit', 'GenPosition',
                   'A3f', 'C3f', 'C4f'}, 8),
-            m1]
+            m1, _m8(ctx)]
 
 
 def _c02(ctx):
@@ -198,7 +206,7 @@ def _c02(ctx):
                  'exact-delegation / conditional-initialisation licence on the inverse path (GenInverse, InverseLine, '
                  'Lengths, InverseStart, Lambda12): no conditionally initialised value reaches an output or a branch',
                  {'GenInverse', 'InverseLine', 'Lengths', 'InverseStart', 'Lambda12', 'A3f', 'C3f', 'C4f'}, 10),
-            r6]
+            r6, _m8(ctx)]
 
 
 def _c03(ctx):
@@ -252,7 +260,7 @@ def _c12(ctx):
     m7, nf7, nc7 = licrules.rule_M7(ctx)
     m7.floor('gated functions', nf7, 15)
     m7.floor('mask-gated placeholders', nc7, 3)
-    return [m1, m2, m2c, m4, lic, m4c, m6, m7]
+    return [m1, m2, m2c, m4, lic, m4c, m6, m7, _m8(ctx)]
 
 
 def _c09(ctx):
